@@ -5,6 +5,8 @@
 //!   C17 csvsplit <delim> <k> <hex>   raw input → the records arrow-csv splits it into (k Utf8 columns)
 //!   C17 jsonstr <hex>                one string → hex of the JSON string token the writer emits
 //!   C17 jsonunesc <hex>              one JSON string token → hex of the string the reader decodes
+//!   C17 jsonbin <hex>                one Binary value → hex of the JSON token (hex string); read back as every binary layout
+//!   C17 jsonunbin <hex>              the characters of a hex string → hex of the decoded bytes
 //!   C17 jsonrt <opts> <schema> <n> <cols>   whole batch through writer and reader (oracle only)
 //!   C17 csvrt  <opts> <schema> <n> <cols>   whole batch through writer and reader (oracle only)
 //!
@@ -210,6 +212,18 @@ fn build_col(ty: &str, vs: &[&str]) -> ArrayRef {
         "f64" => Arc::new(vs.iter().map(|v| opt(v, |x| f64::from_bits(u64::from_str_radix(x, 16).unwrap()))).collect::<Float64Array>()),
         "utf8" => Arc::new(vs.iter().map(|v| opt(v, hexstr)).collect::<StringArray>()),
         "lutf8" => Arc::new(vs.iter().map(|v| opt(v, hexstr)).collect::<LargeStringArray>()),
+        "utf8v" => Arc::new(vs.iter().map(|v| opt(v, hexstr)).collect::<StringViewArray>()),
+        "bin" => Arc::new(vs.iter().map(|v| opt(v, |x| if x == "~" { vec![] } else { unhex(x) })).collect::<BinaryArray>()),
+        "lbin" => Arc::new(vs.iter().map(|v| opt(v, |x| if x == "~" { vec![] } else { unhex(x) })).collect::<LargeBinaryArray>()),
+        "binv" => Arc::new(vs.iter().map(|v| opt(v, |x| if x == "~" { vec![] } else { unhex(x) })).collect::<BinaryViewArray>()),
+        t if t.starts_with("fsb") => {
+            let n: i32 = t[3..].parse().unwrap();
+            let mut b = FixedSizeBinaryBuilder::with_capacity(vs.len(), n);
+            for v in vs {
+                if *v == "N" { b.append_null() } else { b.append_value(unhex(v)).unwrap() }
+            }
+            Arc::new(b.finish())
+        }
         "d32" => prim!(Date32Type, i32),
         "d64" => prim!(Date64Type, i64),
         "t32s" => prim!(Time32SecondType, i32),
@@ -317,6 +331,55 @@ fn run_case(line: &str, sink: &mut Sink, tags: &str) -> String {
             }
             hex(&tok)
         }
+        "jsonbin" => {
+            let bytes = unhex(t[2]);
+            let schema = Arc::new(Schema::new(vec![Field::new("a", DataType::Binary, true)]));
+            let batch = RecordBatch::try_new(schema.clone(), vec![Arc::new(BinaryArray::from(vec![Some(bytes.as_slice())])) as ArrayRef]).unwrap();
+            let mut out = Vec::new();
+            {
+                let mut w = arrow_json::LineDelimitedWriter::new(&mut out);
+                w.write(&batch).unwrap();
+                w.finish().unwrap();
+            }
+            let tok = match out.strip_prefix(b"{\"a\":").and_then(|x| x.strip_suffix(b"}\n")) {
+                Some(x) => x.to_vec(),
+                None => return "ERR:layout".into(),
+            };
+            // read back with every binary layout
+            for dt in [DataType::Binary, DataType::LargeBinary, DataType::BinaryView, DataType::FixedSizeBinary(bytes.len() as i32)] {
+                let sch = Arc::new(Schema::new(vec![Field::new("a", dt.clone(), true)]));
+                let got: Result<Vec<RecordBatch>, _> = arrow_json::ReaderBuilder::new(sch).build(Cursor::new(out.clone())).and_then(|r| r.collect());
+                match got {
+                    Ok(bs) if bs.len() == 1 && bs[0].num_rows() == 1 => {
+                        let c = bs[0].column(0);
+                        let v: Vec<u8> = match &dt {
+                            DataType::Binary => c.as_binary::<i32>().value(0).to_vec(),
+                            DataType::LargeBinary => c.as_binary::<i64>().value(0).to_vec(),
+                            DataType::BinaryView => c.as_binary_view().value(0).to_vec(),
+                            _ => c.as_fixed_size_binary().value(0).to_vec(),
+                        };
+                        if v != bytes {
+                            oracle.push(format!("binary round trip as {dt:?}: read {} bytes, wrote {}; first difference at byte {}", v.len(), bytes.len(), v.iter().zip(bytes.iter()).position(|(a, b)| a != b).unwrap_or(v.len().min(bytes.len()))));
+                        }
+                    }
+                    other => oracle.push(format!("binary round trip as {dt:?}: {}", format!("{other:?}").chars().take(120).collect::<String>())),
+                }
+            }
+            hex(&tok)
+        }
+        "jsonunbin" => {
+            let chars = unhex(t[2]);
+            let mut doc = b"{\"a\":\"".to_vec();
+            doc.extend_from_slice(&chars);
+            doc.extend_from_slice(b"\"}\n");
+            let sch = Arc::new(Schema::new(vec![Field::new("a", DataType::Binary, true)]));
+            let got: Result<Vec<RecordBatch>, _> = arrow_json::ReaderBuilder::new(sch).build(Cursor::new(doc)).and_then(|r| r.collect());
+            match got {
+                Ok(bs) if bs.len() == 1 && bs[0].num_rows() == 1 => hex(bs[0].column(0).as_binary::<i32>().value(0)),
+                Ok(_) => "ERR:rows".into(),
+                Err(_) => "ERR:parse".into(),
+            }
+        }
         "jsonunesc" => {
             let tok = unhex(t[2]);
             let mut doc = b"{\"a\":".to_vec();
@@ -419,7 +482,83 @@ fn run_case(line: &str, sink: &mut Sink, tags: &str) -> String {
 
 // ------------------------------------------------------------------ generators
 const PIECES: [&str; 22] = ["a", "b", ",", "\"", "\"\"", "\n", "\r", "\r\n", " ", "\t", ";", "\\", "é", "😀", "\u{0}", "\u{1}", "\u{7f}", "\u{ffff}", "\u{20000}", "'", "#", "NULL"];
+thread_local! {
+    /// largest variable-length value (bytes) / element count drawn for the current case (for the `sz:` tag)
+    static MAX_SIZE: std::cell::Cell<usize> = const { std::cell::Cell::new(0) };
+}
+fn note_size(n: usize) {
+    MAX_SIZE.with(|m| m.set(m.get().max(n)));
+}
+fn size_tag() -> &'static str {
+    match MAX_SIZE.with(|m| m.replace(0)) {
+        0..=30 => "sz:small",
+        31..=66 => "sz:31-66",
+        67..=130 => "sz:127-130",
+        131..=258 => "sz:255-258",
+        259..=514 => "sz:511-514",
+        515..=1026 => "sz:1023-1026",
+        1027..=5000 => "sz:4k",
+        _ => "sz:64k",
+    }
+}
+/// byte length of a variable-length value: mostly short, often on a size class that crosses an internal
+/// buffer / block boundary (31..33, 63..66, 127..130, 255..258, 511..514, 1023..1026), rarely ~4 KiB / ~64 KiB
+fn size_class(rng: &mut Rng) -> usize {
+    let n = match rng.below(1000) {
+        0..=549 => rng.usize(7),
+        550..=699 => 63 + rng.usize(4),
+        700..=779 => 31 + rng.usize(3),
+        780..=859 => 127 + rng.usize(4),
+        860..=919 => 255 + rng.usize(4),
+        920..=959 => 511 + rng.usize(4),
+        960..=989 => 1023 + rng.usize(4),
+        990..=996 => 4094 + rng.usize(5),
+        _ => 65534 + rng.usize(4),
+    };
+    note_size(n);
+    n
+}
+/// element count of a list / map: mostly tiny, sometimes around 64 / 128 / 256
+fn count_class(rng: &mut Rng) -> usize {
+    let n = match rng.below(100) {
+        0..=89 => *rng.pick(&[0usize, 0, 1, 2, 4]),
+        90..=95 => 63 + rng.usize(3),
+        96..=98 => 127 + rng.usize(3),
+        _ => 255 + rng.usize(3),
+    };
+    note_size(n);
+    n
+}
+/// text of exactly `size_class` bytes: ASCII only, or mixed with multi-byte characters (so that byte and
+/// character counts differ), made of the adversarial pieces and padded with `a`
+fn gen_text_sized(rng: &mut Rng) -> String {
+    let target = size_class(rng);
+    let ascii = rng.bool();
+    loop {
+        let mut s = String::new();
+        while s.len() < target {
+            let p = *rng.pick(&PIECES);
+            if (ascii && !p.is_ascii()) || s.len() + p.len() > target {
+                if s.len() + 1 <= target {
+                    s.push(if target > 200 && !ascii && s.len() + 2 <= target { 'é' } else { 'a' });
+                }
+                continue;
+            }
+            s.push_str(p);
+        }
+        if s != NULL_SENTINEL {
+            return s;
+        }
+    }
+}
+fn gen_bytes_sized(rng: &mut Rng) -> Vec<u8> {
+    let n = size_class(rng);
+    rng.bytes(n)
+}
 fn gen_text(rng: &mut Rng, max: usize) -> String {
+    if rng.chance(1, 3) {
+        return gen_text_sized(rng);
+    }
     loop {
         let n = rng.usize(max + 1);
         let s: String = (0..n).map(|_| *rng.pick(&PIECES)).collect();
@@ -456,7 +595,13 @@ fn gen_flat_value(rng: &mut Rng, ty: &str, json: bool) -> String {
             let f = f64::from_bits(b);
             if !f.is_finite() && json { "3ff0000000000000".into() } else { format!("{:016x}", if f.is_nan() { 0x7ff8_0000_0000_0000 } else { b }) }
         }
-        "utf8" | "lutf8" => hex_or_empty(gen_text(rng, 6).as_bytes(), "~"),
+        "utf8" | "lutf8" | "utf8v" => hex_or_empty(gen_text(rng, 6).as_bytes(), "~"),
+        "bin" | "lbin" | "binv" => hex_or_empty(&gen_bytes_sized(rng), "~"),
+        t if t.starts_with("fsb") => {
+            let n: usize = t[3..].parse().unwrap();
+            note_size(n);
+            hex(&rng.bytes(n))
+        }
         "d64" => (rng.pick_or(&[-719161, 2932895, 0, -1, 1], -719161, 2932895) * 86_400_000).to_string(),
         "t32s" => rng.range(0, 86399).to_string(),
         "t32m" => rng.range(0, 86_399_999).to_string(),
@@ -480,11 +625,11 @@ fn gen_value(rng: &mut Rng, ty: &str, json: bool, nullable: bool) -> String {
         return "N".into();
     }
     if let Some(inner) = ty.strip_prefix("list(").and_then(|x| x.strip_suffix(')')) {
-        let n = *rng.pick(&[0usize, 0, 1, 2, 4]);
+        let n = count_class(rng);
         return format!("L{}", (0..n).map(|_| gen_value(rng, inner, json, true)).collect::<Vec<_>>().join("."));
     }
     if let Some(inner) = ty.strip_prefix("map(").and_then(|x| x.strip_suffix(')')) {
-        let n = *rng.pick(&[0usize, 1, 2, 3]);
+        let n = if rng.chance(1, 10) { count_class(rng) } else { *rng.pick(&[0usize, 1, 2, 3]) };
         return format!("M{}", (0..n).map(|j| format!("{}.{}", hex(format!("k{j}{}", gen_text(rng, 2)).as_bytes()), gen_value(rng, inner, json, true))).collect::<Vec<_>>().join("."));
     }
     if let Some(inner) = ty.strip_prefix("st(").and_then(|x| x.strip_suffix(')')) {
@@ -492,13 +637,15 @@ fn gen_value(rng: &mut Rng, ty: &str, json: bool, nullable: bool) -> String {
     }
     gen_flat_value(rng, ty, json)
 }
+/// JSON-only column types (hex-encoded binary in every layout)
+const JSON_ONLY: [&str; 9] = ["bin", "lbin", "binv", "fsb1", "fsb33", "fsb64", "fsb65", "fsb130", "utf8v"];
 const FLAT: [&str; 30] = ["bool", "i8", "i16", "i32", "i64", "u8", "u16", "u32", "u64", "f32", "f64", "utf8", "lutf8", "d32", "d64", "t32s", "t32m", "t64u", "t64n", "tss", "tsm", "tsu", "tsn", "tzs", "tzm", "tzu", "tzn", "dec(5.2)", "dec(38.10)", "dec(18.0)"];
 fn gen_rt(rng: &mut Rng, json: bool) -> (String, String) {
     let ncols = 1 + rng.usize(4);
     let n = *rng.pick(&[0usize, 1, 2, 3, 7]);
     let mut tys: Vec<String> = vec![];
     for _ in 0..ncols {
-        let mut base = rng.pick(&FLAT).to_string();
+        let mut base = if json && rng.chance(1, 4) { rng.pick(&JSON_ONLY).to_string() } else if rng.chance(1, 5) { (*rng.pick(&["utf8", "utf8", "lutf8", "utf8v"])).to_string() } else { rng.pick(&FLAT).to_string() };
         if !json && base == "lutf8" {
             base = "utf8".into(); // the CSV reader has no LargeUtf8 decoder
         }
@@ -527,7 +674,12 @@ fn gen_rt(rng: &mut Rng, json: bool) -> (String, String) {
     }
 }
 fn gen_case(rng: &mut Rng) -> (String, String) {
-    match rng.below(10) {
+    MAX_SIZE.with(|m| m.set(0));
+    let (line, tags) = gen_case_inner(rng);
+    (line, format!("{} {}", tags, size_tag()))
+}
+fn gen_case_inner(rng: &mut Rng) -> (String, String) {
+    match rng.below(11) {
         0 | 1 => {
             let d = *rng.pick(&[b',', b',', b';', b'\t', b'|']);
             let k = 1 + rng.usize(4);
@@ -610,6 +762,31 @@ fn gen_case(rng: &mut Rng) -> (String, String) {
             (format!("C17 jsonunesc {}", hex(&tok)), format!("op:jsonunesc nt{}", tags))
         }
         6 | 7 => gen_rt(rng, true),
+        10 => {
+            if rng.chance(2, 3) {
+                // writer side + round trip of one Binary value of a boundary-crossing length
+                let b = gen_bytes_sized(rng);
+                (format!("C17 jsonbin {}", hex(&b)), format!("op:jsonbin {}", if b.len() > 64 { "nt multi-chunk" } else if !b.is_empty() { "nt" } else { "" }))
+            } else {
+                // reader side: any hex spelling (upper / lower case), odd length, stray characters
+                let n = size_class(rng);
+                let mut chars: Vec<u8> = (0..2 * n).map(|_| *rng.pick(b"0123456789abcdefABCDEF")).collect();
+                let mut tag = "";
+                match rng.below(10) {
+                    0 => {
+                        chars.push(*rng.pick(b"0123456789abcdefABCDEF"));
+                        tag = " odd-length";
+                    }
+                    1 if !chars.is_empty() => {
+                        let i = rng.usize(chars.len());
+                        chars[i] = *rng.pick(b"gG xz-");
+                        tag = " bad-digit";
+                    }
+                    _ => {}
+                }
+                (format!("C17 jsonunbin {}", hex(&chars)), format!("op:jsonunbin nt{}{}", tag, if n > 64 { " multi-chunk" } else { "" }))
+            }
+        }
         _ => gen_rt(rng, false),
     }
 }
